@@ -90,7 +90,7 @@ DEFAULT_CFG = dict(
     mix_between=dict(remove=2, consume=1, reset=1, bump=3, reopen=1, purge=0, crash=0, trace=1, search=1, check=1),
     mix_actor=dict(add=1, record=1, next=1, versions=1, trace=1, search=1, facet=1, fesearch=1, check=2),
     kill=(0, 1), reset_conn=(0, 1), crash_mid=(0, 1), real_hash=(1, 50), stop_on=None, nonfatal=(),
-    enum=0, exdev=False, enospc=(0, 1), msv=(1, 6),
+    enum=0, exdev=False, enospc=(0, 1), msv=(1, 6), max_images=160, mix_enum=dict(update=1), enum_clients=2, real_kill=(1, 3),
 )
 
 
@@ -118,6 +118,7 @@ class StoreWorld:
         self.crash_points = 0
         self.nunhandled = 0
         self.phase_no = 0
+        self.imager = None
 
     # -- reporting ---------------------------------------------------------
     def violate(self, prop, rule, sig, msg, fatal=True):
@@ -147,8 +148,13 @@ class StoreWorld:
 
         ch, cfg = self.ch, self.cfg
         net = core.NetCfg(chunk=(1, 10), delay=(1, 8), coalesce=(1, 4), short_read=(1, 10)) if cfg['net'] else core.NetCfg()
+        from worlds import store_io as sio
+
+        sio.uninstall()
+        sio.S.reset()
         env.reset(self.sim, ch, net=net)
         self._patch_observers()
+        self.restore_io()
         self.spec = aegen.generate(ch, max_pkgs=cfg['max_pkgs'], max_algs=3, max_total=cfg['max_total'], feedback=False,
                                    kinds=['task', 'task', 'task', 'analysis'], max_svs=2, max_vals=2, max_inputs=2)
         self.eng = aegen.Engine(self.spec)
@@ -169,6 +175,21 @@ class StoreWorld:
             dawgie.db.add(t)
             self.op(f'pl: add target {t}')
         self.sim.after_step.append(self.after_step)
+
+    def restore_io(self):
+        """the I/O seam of the main history: nothing, or (disk-fault configurations) the numbered wrappers inside
+        dawgie.db.util only"""
+        from worlds import store_io as sio
+
+        cfg = self.cfg
+        sio.uninstall()
+        sio.S.reset()
+        if cfg['exdev'] or cfg['enospc'][0]:
+            sio.install('util')
+            sio.S.exdev = bool(cfg['exdev'])
+            sio.S.active = True
+            if cfg['enospc'][0]:
+                sio.S.fail = self.disk_full
 
     def _patch_observers(self):
         """harness observation points (no behaviour change): comms.release is wrapped so that a load's
@@ -253,10 +274,10 @@ class StoreWorld:
         return RUN_POOL[self.ch.choose('op.run', len(RUN_POOL))]
 
     # -- client operations ---------------------------------------------------
-    def gen_client_op(self):
+    def gen_client_op(self, force=None, mix=None):
         ch, cfg = self.ch, self.cfg
-        bag = [k for k, n in cfg['mix_client'].items() for _ in range(n)]
-        kind = bag[ch.choose('op.ckind', len(bag))]
+        bag = [k for k, n in (mix or cfg['mix_client']).items() for _ in range(n)]
+        kind = force or bag[ch.choose('op.ckind', len(bag))]
         op = dict(kind=kind)
         if kind in ('update', 'load', 'load_ref', 'crecord'):
             a = self.draw_alg()
@@ -269,6 +290,21 @@ class StoreWorld:
             op['alg'] = a.full
             op['target'] = ALL if a.kind == 'analysis' else self.draw_target()
             op['run'] = self.draw_run()
+            if kind in ('load', 'load_ref') and self.model.prime and ch.flip('op.load_known', 2, 3):
+                # aim at something that was stored: same identity and target, the same or another run
+                keys = sorted(self.model.prime, key=repr)
+                k = keys[ch.choose('op.load_key', len(keys))]
+                full = f'{k[2]}.{k[3]}'
+                if kind == 'load_ref':
+                    kids = [x for x in self.spec.algs if any(i[0] == full for i in x.inputs)]
+                    if kids:
+                        kid = kids[ch.choose('op.load_kid', len(kids))]
+                        op['alg'] = kid.full
+                        op['target'] = ALL if kid.kind == 'analysis' else (k[1] if k[1] != ALL else self.draw_target())
+                else:
+                    op['alg'], op['target'] = full, k[1]
+                if ch.flip('op.load_same_run', 1, 2):
+                    op['run'] = k[0]
             if kind == 'update':
                 op['contents'] = {}
                 op['labels'] = {}
@@ -334,7 +370,7 @@ class StoreWorld:
     def faulty_history(self):
         return sum(self.faults.values()) > 0
 
-    def c_update(self, cl, op):
+    def prepare_update(self, op):
         aspec = self.spec.by[op['alg']]
         bot, alg, target = self.make(aspec, op['run'], op['target'])
         intents = []
@@ -343,6 +379,13 @@ class StoreWorld:
                 c = op['contents'][(sv.name(), vn)]
                 sv[vn].content = copy.deepcopy(c)
                 intents.append(sm.Intent(op['run'], target, self.ident(aspec, alg, sv, vn), c, sm.digest_of(sv[vn])))
+        return aspec, bot, alg, target, intents
+
+    def intents_of(self, op):
+        return self.prepare_update(op)[4]
+
+    def c_update(self, cl, op):
+        aspec, bot, alg, target, intents = self.prepare_update(op)
         bot._intents, bot._nack = intents, 0
         op['bot'] = bot
         ds = self.connect(aspec, alg, bot, target)
@@ -388,20 +431,25 @@ class StoreWorld:
         want = '.'.join(str(x) for x in it.names)
         if name != want:
             self.violate('C07', 'novelty_names', 'differ', f'bot was told {name}, stored {want}')
+        self.judge_novelty(it, isnew)
+        self.model.ack(it)
+        self.acks_log(it, isnew)
+        self.op(f'   ack {it.brief()} new={bool(isnew)}')
+
+    def judge_novelty(self, it, isnew):
+        """C07 clause 1: a value is reported new exactly when no identical content was in the store before.
+        Leniency: when an earlier un-acknowledged update may or may not have left this very content in the
+        store, either answer is accepted."""
         m = self.model
         if it.digest in m.maybe_blobs:
             self.probes['novelty_undetermined_after_fault'] += 1
-        else:
-            expect = it.digest not in m.blobs
-            # C07 clause 1: new exactly when no identical content was in the store before
-            if bool(isnew) != expect:
-                self.violate('C07', 'novelty_wrong', 'reported_new_but_present' if isnew else 'reported_old_but_absent',
-                             f'{it.brief()} content digest {it.digest[:12]} was {"absent from" if expect else "present in"} '
-                             f'the store, bot was told new={isnew}')
-            self.probes['novelty_new' if expect else 'novelty_repeat'] += 1
-        m.ack(it)
-        self.acks_log(it, isnew)
-        self.op(f'   ack {it.brief()} new={bool(isnew)}')
+            return
+        expect = it.digest not in m.blobs
+        if bool(isnew) != expect:
+            self.violate('C07', 'novelty_wrong', 'reported_new_but_present' if isnew else 'reported_old_but_absent',
+                         f'{it.brief()} content digest {it.digest[:12]} was {"absent from" if expect else "present in"} '
+                         f'the store, bot was told new={isnew}')
+        self.probes['novelty_new' if expect else 'novelty_repeat'] += 1
 
     def acks_log(self, it, isnew):
         pass
@@ -540,15 +588,22 @@ class StoreWorld:
             self.violate('C08', 'targets_repeated', 'client', f'targets() through the client path: {got}')
 
     # -- phases ----------------------------------------------------------------
-    def phase(self):
+    def phase(self, ops=None, mix=None, max_clients=None, msv=True):
         ch, cfg = self.ch, self.cfg
         self.phase_no += 1
-        n = 1 + ch.choose('ph.nclients', cfg['max_clients'])
         self.clients = []
-        for i in range(n):
-            k = 1 + ch.choose('ph.nops', cfg['ops_per_client'])
-            ops = [self.gen_client_op() for _ in range(k)]
-            self.clients.append(Client(self, i, f'c{self.phase_no}.{i}', ops))
+        if ops is None:
+            n = 1 + ch.choose('ph.nclients', max_clients or cfg['max_clients'])
+            ops = []
+            for i in range(n):
+                k = 1 + ch.choose('ph.nops', cfg['ops_per_client'])
+                ops.append([self.gen_client_op(mix=mix) for _ in range(k)])
+            if not msv:
+                for lst in ops:
+                    for o in lst:
+                        o['msv'] = False
+        for i, lst in enumerate(ops):
+            self.clients.append(Client(self, i, f'c{self.phase_no}.{i}', lst))
         self.plan_faults()
         self.actor = PipelineActor(self, ch.choose('ph.nactor', cfg['actor_ops'] + 1))
         self.sim.actors[:] = [self.actor]
@@ -607,6 +662,14 @@ class StoreWorld:
     def after_step(self, kind, label):
         if self.stopped and core.current_thread() is None:
             raise Stop()
+        for cl in self.clients:
+            if cl.thread is not None and cl.thread.dead and not cl.killed:
+                # declared dead by the kernel (spinning on EOF for ever) or by the crash seam: the process is
+                # gone, its sockets reset
+                if cl.thread.label == 'spinning':
+                    self.probes['client_spinning_on_eof'] += 1
+                    self.op(f'{cl.name} reads EOF for ever (declared dead)')
+                self.kill_client(cl, count=False)
         if not getattr(self, 'planned', None):
             return
         rel = self.sim.steps - self.phase_start
@@ -627,6 +690,16 @@ class StoreWorld:
                 elif f[0] == 'crash':
                     if any(c.alive for c in self.clients):
                         self.crash_reopen(mid_phase=True)
+
+    def disk_full(self, label):
+        """asked at every write-like I/O step inside dawgie.db.util when the configuration enables ENOSPC"""
+        if not self.cfg['faults'] or not self.clients:
+            return False
+        if self.ch.flip('fault.enospc', *self.cfg['enospc']):
+            self.faults['fault.disk_full'] += 1
+            self.op(f'FAULT: ENOSPC at {label}')
+            return True
+        return False
 
     def kill_client(self, cl, count=True):
         """the client process dies (SIGKILL): its thread is never released again, no finally block runs,
@@ -670,6 +743,10 @@ class StoreWorld:
             try:
                 env.close_db()
             finally:
+                from worlds import store_io as sio
+
+                sio.uninstall()
+                sio.S.reset()
                 env.uninstall_conn_pruning(self.sim)
                 if self.dir:
                     env.cleanup(self.dir)
@@ -683,9 +760,11 @@ class StoreWorld:
     def result(self):
         sim = self.sim
         faults = dict(self.faults)
+        if self.crash_points:
+            faults['fault.crash_point_enumerated'] = self.crash_points
         faults.update({k: v for k, v in sim.counts.items() if k.startswith('net.') and k not in ('net.connections', 'net.server_close')})
         interesting = sim.counts['sched.reordered'] > 0 or sum(self.faults.values()) > 0 or self.crash_points > 0
-        nontrivial = self.model.acked >= 2 and (self.loads_checked + self.searches_checked) >= 1 and interesting
+        nontrivial = self.model.acked >= 2 and (self.loads_checked + self.searches_checked + self.crash_points) >= 1 and interesting
         self.probes['connections'] += sim.counts['net.connections']
         self.probes['hash_calls_real'] += env.HASH['real_calls']
         return dict(violations=self.violations, probes=dict(self.probes), faults=faults, steps=sim.steps, vtime=round(sim.now, 3),
